@@ -3,6 +3,8 @@
 package internal
 
 import (
+	"sync/atomic"
+	"runtime"
 	"sync"
 	"context"
 	"fmt"
@@ -355,4 +357,85 @@ func TestVerifSlowSecondaryDeadline(t *testing.T) {
 		s.Close()
 	}
 	clockOff()
+}
+
+// C03 under concurrent in-place updates: a writer alternates, on the same key, a value with a 1 ns TTL (dead at once) and
+// a value with a long TTL, while readers spin on Get.  A Get that STARTED after Set(dead value) had returned must never be
+// answered that dead value - value and deadline have to be read in one critical section.  (Real clock; a search with a
+// sound oracle: what it flags is a violation, what it does not reach it does not judge.)
+func TestVerifReadsSeeValueAndDeadlineTogether(t *testing.T) {
+	tr := vopen(t, "readatomic")
+	defer tr.close()
+	tr.init(0)
+	clockOff()
+	xrandOff()
+	VerifYield.Store(nil)
+	s := NewStore(&StoreOptions[int, int]{MaxSize: 1000})
+	ls := NewLoadingStore(s)
+	ls.Loader(func(ctx context.Context, key int) (Loaded[int], error) { return Loaded[int]{Value: -1, Cost: 1, TTL: time.Hour}, nil })
+	const nkeys = 4
+	var doneAt [nkeys]sync.Map // dead value -> time its Set returned
+	stop := make(chan struct{})
+	var wg sync.WaitGroup
+	var bad atomic.Int64
+	var gets atomic.Int64
+	for k := 0; k < nkeys; k++ {
+		wg.Add(1)
+		go func(k int) {
+			defer wg.Done()
+			v := 0
+			for {
+				select {
+				case <-stop:
+					return
+				default:
+				}
+				v += 2 // even: dead on arrival
+				s.Set(k, v, 1, time.Nanosecond)
+				doneAt[k].Store(v, time.Now())
+				for i := 0; i < 50; i++ {
+					runtime.Gosched()
+				}
+				s.Set(k, v+1, 1, time.Hour) // odd: alive
+				for i := 0; i < 20; i++ {
+					runtime.Gosched()
+				}
+			}
+		}(k)
+		for rd := 0; rd < 3; rd++ {
+			wg.Add(1)
+			go func(k, rd int) {
+				defer wg.Done()
+				for {
+					select {
+					case <-stop:
+						return
+					default:
+					}
+					t0 := time.Now()
+					var v int
+					var ok bool
+					if rd == 2 {
+						vv, err := ls.Get(context.Background(), k)
+						v, ok = vv, err == nil
+					} else {
+						v, ok = s.Get(k)
+					}
+					gets.Add(1)
+					if ok && v > 0 && v%2 == 0 {
+						if at, found := doneAt[k].Load(v); found && t0.Sub(at.(time.Time)) > time.Microsecond {
+							if bad.Add(1) <= 3 {
+								tr.viol(fmt.Sprintf("C03: Get(%d) started %v after Set(%d, %d, ttl=1ns) had returned and was still answered %d: a value past its deadline, judged by the deadline of a later write", k, t0.Sub(at.(time.Time)), k, v, v))
+							}
+						}
+					}
+				}
+			}(k, rd)
+		}
+	}
+	time.Sleep(time.Duration(vscale(1500, 8000)) * time.Millisecond)
+	close(stop)
+	wg.Wait()
+	s.Close()
+	tr.op("run", ss("85", i64(gets.Load())), ss(i64(bad.Load())))
 }
